@@ -133,7 +133,10 @@ class ExpandedTraceback:
         self.full_traceback = full_traceback
         self.hide_filenames = hide_filenames
         self.show_filenames = show_filenames
-        self.line_number = traceback.extract_tb(exc_info[2])[-1][1]
+        innermost_frame = traceback.extract_tb(exc_info[2])[-1]
+        # Like the frames of the rendered traceback, the reported line refers
+        # to the original file (e.g., when only a section of it was run).
+        self.line_number = innermost_frame[1] + line_offsets.get(innermost_frame[0], 0)
         self.original_code_lines = original_code_lines
         self.student_files = student_files
 
